@@ -12,10 +12,10 @@ cd "$WT" || exit 2
 git checkout -q -- . ; git clean -fdq tests/ ; git checkout -q --detach "$(git -C /repo rev-parse HEAD)"
 cp "$M/demo.rs" tests/zz_demo.rs
 sed -i "s|/tmp/mut2\?-C[0-9]*|$WT|g" tests/zz_demo.rs
-without=$(CARGO_NET_OFFLINE=true cargo test --offline --test zz_demo -- --test-threads=1 2>&1 | grep -E "^test result" | head -1)
+without=$(CARGO_NET_OFFLINE=true cargo test --offline --test zz_demo -- --test-threads=1 2>&1 | grep -E "^test result:" | head -1)
 if ! git apply --check "$M/patch.diff" 2>/dev/null; then echo "$ID: patch does not apply to HEAD"; echo "{\"id\":\"$ID\",\"applies\":false}" > "$M/eval.json"; exit 1; fi
 git apply "$M/patch.diff"
-with=$(CARGO_NET_OFFLINE=true cargo test --offline --test zz_demo -- --test-threads=1 2>&1 | grep -E "^test result|^error(\[|:)" | head -1)
+with=$(CARGO_NET_OFFLINE=true cargo test --offline --test zz_demo -- --test-threads=1 2>&1 | grep -E "^test result:|^error(\[|:)" | head -1)
 rm -f tests/zz_demo.rs
 base="skipped"
 # the lead's own baseline run of this very patch is remembered next to it (keyed by the patch's hash), so a later evaluation of more checks need not repeat it
